@@ -20,7 +20,7 @@ var ev *evid.E
 
 func TestMain(m *testing.M) {
 	ev = evid.New("C12", "exploration",
-		"(a) selection: universe of 6 suites (17, 3, MD5/HMAC-MD5-128/AES, SHA1/HMAC-SHA256-128/AES, one with an unsupported integrity algorithm, one with confidentiality None); every "+
+		"(a) selection, single opens and sequences of 2..4 opens on one connection: universe of 6 suites (17, 3, MD5/HMAC-MD5-128/AES, SHA1/HMAC-SHA256-128/AES, one with an unsupported integrity algorithm, one with confidentiality None); every "+
 			"ordered preference list of length 0..3, repetitions included (259), x every advertised subset (64), plus generated longer lists,, advertised through chunked Get Channel Cipher Suites records in a seed-dependent "+
 			"order; oracle: the Open Session Request seen by the BMC proposes the first preferred suite that is advertised (defaults 17 then 3; a single preference without any discovery "+
 			"request), or the no-supported-cipher-suite error and no Open Session Request. (b) confirmation: the BMC answers the proposal with every algorithm triple of the enumerated "+
@@ -58,6 +58,13 @@ func prefLists() [][]int {
 func runSelection(pref []int, advertised int, seed uint64) (msg string, nontrivial bool) {
 	c := hx.Creds{User: "admin", Password: []byte("pw"), Priv: 4, Seed: seed}
 	w := hx.NewWorldFor(c, true)
+	return selectOnce(w, c, pref, advertised, seed)
+}
+
+// selectOnce opens one session on an existing connection and checks the proposal.
+func selectOnce(w *hx.World, c hx.Creds, pref []int, advertised int, seed uint64) (msg string, nontrivial bool) {
+	logStart := len(w.BMC.Log)
+	w.BMC.Data.CipherReqs = 0
 	// advertise the subset, one record per suite, in a seed-dependent rotation
 	var recs []byte
 	rot := int(seed % 6)
@@ -107,7 +114,7 @@ func runSelection(pref []int, advertised int, seed uint64) (msg string, nontrivi
 	sess, err := w.T.NewV2Session(ctx, opts)
 	var open *ref.OpenReq
 	opens := 0
-	for _, rx := range w.BMC.Log {
+	for _, rx := range w.BMC.Log[logStart:] {
 		if rx.OpenReq != nil {
 			opens++
 			if open == nil {
@@ -309,6 +316,40 @@ func TestRandomSelection(t *testing.T) {
 	})
 }
 
+// TestSequences: several session opens on ONE connection, each with its own
+// preference list (and possibly a changed advertised set); every open must obey
+// the rule on its own, whatever was negotiated before.
+func TestSequences(t *testing.T) {
+	ev.Check(t, "TestSequences", ev.PickN(1500, 100000), func(t *rapid.T) {
+		seed := rapid.Uint64().Draw(t, "seed")
+		c := hx.Creds{User: "admin", Password: []byte("pw"), Priv: 4, Seed: seed}
+		w := hx.NewWorldFor(c, true)
+		n := rapid.IntRange(2, 4).Draw(t, "opens")
+		adv := rapid.IntRange(0, 63).Draw(t, "advertised")
+		var hist []string
+		for i := 0; i < n; i++ {
+			l := rapid.IntRange(0, 3).Draw(t, "len")
+			pref := make([]int, l)
+			for j := range pref {
+				// mostly the four usable suites, so that sessions really get established
+				pref[j] = rapid.SampledFrom([]int{0, 1, 2, 3, 0, 1, 4, 5}).Draw(t, "suite")
+			}
+			if rapid.IntRange(0, 3).Draw(t, "readvertise") == 0 {
+				adv = rapid.IntRange(0, 63).Draw(t, "advertisedNow")
+			}
+			hist = append(hist, fmt.Sprintf("%v/%06b", pref, adv))
+			msg, _ := selectOnce(w, c, pref, adv, seed+uint64(i))
+			if msg != "" {
+				t.Fatalf("open %d of history %v on one connection: %s", i+1, hist, msg)
+			}
+		}
+		ev.Eval()
+		ev.NonTrivial(fmt.Sprintf("seq|%v", hist))
+		ev.Label("sequence-of-opens")
+		ev.Sample(map[string]any{"part": "sequence on one connection", "opens (preferences/advertised)": hist})
+	})
+}
+
 func TestCoverage(t *testing.T) {
-	ev.RequireLabels(t, 1, "selection-complete", "confirmation-complete", "selection:first-preference-not-advertised", "confirmation:answered-differs", "confirmation:answered-equals")
+	ev.RequireLabels(t, 1, "selection-complete", "confirmation-complete", "selection:first-preference-not-advertised", "sequence-of-opens", "confirmation:answered-differs", "confirmation:answered-equals")
 }
